@@ -31,6 +31,8 @@ REACH = [(m, r) for m in ALL_MODES for r in ('full_ring', 'dtor_while_running', 
         [(m, r) for m in ('thread', 'pooled') for r in ('two_helpers', 'helper_pending_other_running')] + \
         [('pooled', 'pool_overflow'), ('pooled', 'pooled_thread_reused')]
 
+# many JVMs run side by side: keep each one's GC thread pool small
+JENV = {'JAVA_TOOL_OPTIONS': '-XX:ParallelGCThreads=2'}
 MC_Q = [('MC_WorkPool_quick.cfg', 4)]
 MC_T = MC_Q + [('MC_WorkPool_3a_thorough.cfg', 3), ('MC_WorkPool_4a_thorough.cfg', 4), ('MC_WorkPool_4b_thorough.cfg', 6),
                ('MC_WorkPool_ext_thorough.cfg', 3), ('MC_WorkPool_w3_thorough.cfg', 4), ('MC_WorkPool_live_thorough.cfg', 2)]
@@ -53,7 +55,7 @@ def model_checking(ctx):
     lock = threading.Lock()
 
     def plain(cfg, workers):
-        r = ctx.mc('MC_WorkPool', cfg, timeout=2400, workers=workers, xmx='6g', count=False)
+        r = ctx.mc('MC_WorkPool', cfg, timeout=2400, workers=workers, xmx='6g', count=False, env=JENV)
         with lock:
             ctx.states += r['distinct']
             ctx.transitions += r['generated']
@@ -64,7 +66,7 @@ def model_checking(ctx):
 
     def witness():
         # broken variants: the run itself "passes" (violating states are recorded in a register and cut off)
-        r = ctx.mc('MC_WorkPool', 'MC_WorkPool_witness.cfg' if ctx.tier == 'quick' else 'MC_WorkPool_witness_thorough.cfg', timeout=1200, workers=1, xmx='3g', count=False)
+        r = ctx.mc('MC_WorkPool', 'MC_WorkPool_witness.cfg' if ctx.tier == 'quick' else 'MC_WorkPool_witness_thorough.cfg', timeout=1200, workers=1, xmx='3g', count=False, env=JENV)
         got = _triples(r['out'], 'WITNESS')
         if r['rc'] != 0 or got is None:
             raise vtlib.InfraError(f'witness run of WorkPool.tla failed, see {r["log"]}')
@@ -75,7 +77,7 @@ def model_checking(ctx):
             raise vtlib.InfraError(f'WorkPool.tla: broken variants not detected (vacuous model): {missed}')
 
     def reach():
-        r = ctx.mc('MC_WorkPool', 'MC_WorkPool_reach_thorough.cfg', timeout=2400, workers=1, xmx='4g', count=False)
+        r = ctx.mc('MC_WorkPool', 'MC_WorkPool_reach_thorough.cfg', timeout=2400, workers=1, xmx='4g', count=False, env=JENV)
         got = _triples(r['out'], 'REACHED')
         if r['rc'] != 0 or got is None:
             raise vtlib.InfraError(f'reachability run of WorkPool.tla failed, see {r["log"]}')
@@ -112,7 +114,7 @@ def conformance(ctx, modes):
                 raise vtlib.InfraError(f'h_workpool --prim {prim} recorded nothing')
             rows += got
         acc, rejs, n = tracecheck.validate(ctx, 'Trace_WorkPoolA', 'Trace_WorkPoolA.cfg', rows, chunk_events=chunk, par=4,
-                                           tagbase=f'Trace_WorkPoolA_{mode}')
+                                           tagbase=f'Trace_WorkPoolA_{mode}', extra_env=JENV)
         with lock:
             totals['executions'] += n
             for r in rows:
